@@ -14,6 +14,7 @@ Arguments litfold !t kw /.
 Arguments primary : simpl never.
 Arguments json_level : simpl never.
 Arguments json_tail : simpl never.
+Arguments unary_level : simpl never.
 Arguments mul_level : simpl never.
 Arguments add_level : simpl never.
 Arguments concat_level : simpl never.
@@ -249,6 +250,15 @@ Proof.
     (eapply isT_excl; [exact H|]; apply negb_true_iff; assumption).
 Qed.
 
+(* a token that starts a rendering is not a sign (unary minus / plus is not in the reference surface) *)
+Lemma starts_nosign : forall t, starts t = true -> is_sign t = false.
+Proof.
+  intros t H. unfold is_sign. rewrite (starts_not t TyMinus H eq_refl), (starts_not t TyPlus H eq_refl). reflexivity.
+Qed.
+
+Lemma head_nosign : forall toks rest, (exists t tl, toks = t :: tl /\ starts t = true) -> is_sign (cur (toks ++ rest)) = false.
+Proof. intros toks rest (t & tl & E & H). subst toks. cbn [app cur]. apply starts_nosign. exact H. Qed.
+
 Ltac split_stops H :=
   unfold stops in H; cbn [Nat.leb] in H;
   repeat (let H' := fresh "Hs" in apply andb_prop in H; destruct H as [H H']);
@@ -264,7 +274,7 @@ Section Main.
   Definition PC (f : nat) := parse_comparison md df f.
 
   Definition r7 f := primary md (PE f) (PC f).
-  Definition r6 f := json_level md (PE f) (PC f).
+  Definition r6 f := unary_level md (PE f) (PC f).
   Definition r5 f := mul_level md (PE f) (PC f).
   Definition r4 f := add_level md (PE f) (PC f).
   Definition r3 f := concat_level md (PE f) (PC f).
@@ -287,13 +297,25 @@ Section Main.
     match g with 0 => K0 f d x ts | 1 => K1 f d x ts | 2 => K2 f d x ts | 3 => K3 f d x ts | 4 => K4 f d x ts
             | 5 => K5 f d x ts | 6 => K6 f d x ts | _ => Val (x, ts) end.
 
-  Lemma rg_step : forall g f d ts, g < 7 -> rg g f d ts = bind (rg (S g) f d ts) (fun p => Kg g f d (fst p) (snd p)).
+  Lemma rg_step : forall g f d ts, g < 6 -> rg g f d ts = bind (rg (S g) f d ts) (fun p => Kg g f d (fst p) (snd p)).
   Proof.
     intros g f d ts Hg.
-    do 7 (destruct g as [|g]; [cbn [rg Kg]; unfold r0, r1, r2, r3, r4, r5, r6, r7, K0, K1, K2, K3, K4, K5, K6,
-                                 or_level, and_level, cmp_level, concat_level, add_level, mul_level, json_level;
+    do 6 (destruct g as [|g]; [cbn [rg Kg]; unfold r0, r1, r2, r3, r4, r5, r6, r7, K0, K1, K2, K3, K4, K5, K6,
+                                 or_level, and_level, cmp_level, concat_level, add_level, mul_level;
                                match goal with |- bind ?a _ = bind ?a _ => destruct a as [[? ?]| | | |]; reflexivity end|]).
     lia.
+  Qed.
+
+  (* the signed-operand level hands over to parseJSONExpression when no sign is ahead *)
+  Lemma unary_nosign : forall f d ts, is_sign (cur ts) = false ->
+      unary_level md (PE f) (PC f) d ts = json_level md (PE f) (PC f) d ts.
+  Proof. intros f d ts H. unfold unary_level. cbn [unary_chain]. rewrite H. reflexivity. Qed.
+
+  Lemma rg_step6 : forall f d ts, is_sign (cur ts) = false ->
+      rg 6 f d ts = bind (rg 7 f d ts) (fun p => Kg 6 f d (fst p) (snd p)).
+  Proof.
+    intros f d ts H. cbn [rg Kg]. unfold r6. rewrite unary_nosign by exact H. unfold r7, K6, json_level.
+    match goal with |- bind ?a _ = bind ?a _ => destruct a as [[? ?]| | | |]; reflexivity end.
   Qed.
 
   (* what the follow token must not be, for level g to hand its operand back unchanged *)
@@ -339,22 +361,26 @@ Section Main.
   Proof. intros g g' H. induction H; [lia|]. etransitivity; [exact IHle|apply pre_mono]. Qed.
 
   Lemma lift_one : forall g f d toks x rest,
-      g < 7 -> Pg (S g) f d toks x rest -> stops (pre g) (cur rest) = true -> Pg g f d toks x rest.
+      g < 7 -> is_sign (cur (toks ++ rest)) = false ->
+      Pg (S g) f d toks x rest -> stops (pre g) (cur rest) = true -> Pg g f d toks x rest.
   Proof.
-    intros g f d toks x rest Hg HP Hs R HK.
-    rewrite rg_step by assumption.
+    intros g f d toks x rest Hg Hns HP Hs R HK.
+    assert (Hstep : rg g f d (toks ++ rest) = bind (rg (S g) f d (toks ++ rest)) (fun p => Kg g f d (fst p) (snd p))).
+    { destruct (Nat.eq_dec g 6) as [->|Hne]; [apply rg_step6; exact Hns|apply rg_step; lia]. }
+    rewrite Hstep.
     rewrite (Pg_direct _ _ _ _ _ _ HP).
     - cbn [bind fst snd]. exact HK.
     - eapply stops_mono; [apply own_pre; assumption|exact Hs].
   Qed.
 
   Lemma lift_down : forall k g f d toks x rest,
-      g + k <= 7 -> Pg (g + k) f d toks x rest -> stops (pre g) (cur rest) = true -> Pg g f d toks x rest.
+      g + k <= 7 -> is_sign (cur (toks ++ rest)) = false ->
+      Pg (g + k) f d toks x rest -> stops (pre g) (cur rest) = true -> Pg g f d toks x rest.
   Proof.
-    induction k as [|k IH]; intros g f d toks x rest Hle HP Hs.
+    induction k as [|k IH]; intros g f d toks x rest Hle Hns HP Hs.
     - rewrite Nat.add_0_r in HP. exact HP.
-    - apply lift_one; [lia| |exact Hs].
-      apply IH; [lia| |].
+    - apply lift_one; [lia|exact Hns| |exact Hs].
+      apply IH; [lia|exact Hns| |].
       + replace (S g + k) with (g + S k) by lia. exact HP.
       + eapply stops_mono; [apply pre_mono|exact Hs].
   Qed.
@@ -488,13 +514,13 @@ Section Main.
     intros e H0 r f d rest n. revert f d rest.
     induction n as [|n IHn]; intros f d rest g Href Hlen Hdep Hlv Hg7 Hst.
     - cbn [wrap] in *. destruct Hlv as [Hlv|Hlv]; [lia|].
-      apply (lift_down (glevel e - g)); [unfold glevel; pose proof (gl_le7 (level_of e)); lia| |exact Hst].
+      apply (lift_down (glevel e - g)); [unfold glevel; pose proof (gl_le7 (level_of e)); lia|apply head_nosign; apply body_head| |exact Hst].
       replace (g + (glevel e - g)) with (glevel e) by lia.
       apply H0; try assumption. lia.
       eapply stops_mono; [apply pre_mono_le; exact Hlv|exact Hst].
     - assert (Hst8 : stops 8 (cur rest) = true).
       { eapply stops_mono; [|exact Hst]. destruct g as [|[|[|[|[|[|[|g]]]]]]]; cbn; lia. }
-      apply (lift_down (7 - g)); [lia| |exact Hst].
+      apply (lift_down (7 - g)); [lia|apply head_nosign; apply wrap_head; apply body_head| |exact Hst].
       replace (g + (7 - g)) with 7 by lia.
       intros R HK. cbn [Kg] in HK. inversion HK; subst R. clear HK. cbn [rg].
       rewrite wrap_S in *. cbn [app] in Hlen |- *. rewrite app_cons_assoc in Hlen |- *. cbn [length] in Hlen.
@@ -650,123 +676,181 @@ Section Main.
     match goal with Hst : stops _ (cur _) = true |- _ =>
       apply (use_child_direct r0 IHr (S g)); [assumption|side|side|stops_from Hst|stops_from Hst] end.
 
+  (* ---------------------------------------------------------------------------------------------- *)
+  (* one lemma per production: the node satisfies [All] as soon as its children do *)
+  Ltac start_case :=
+    apply All_intro; intros rr f d rest Href Hlen Hdep Hst; cbn [glevel level_of gl pre ref_expr] in *.
+
+  Lemma All_ident : forall q n, All (MIdent q n).
+  Proof.
+    intros q n. start_case. intros R HK. cbn [Kg] in HK. inversion HK; subst R. cbn [rg body app].
+    apply prim_ident. split_stops Hst. assumption.
+  Qed.
+  Lemma All_qident : forall t n, All (MQIdent t n).
+  Proof.
+    intros t n. start_case. intros R HK. cbn [Kg] in HK. inversion HK; subst R. cbn [rg body app].
+    apply prim_qident. split_stops Hst. assumption.
+  Qed.
+  Lemma All_num : forall s, All (MNum s).
+  Proof. intros s. start_case. intros R HK. cbn [Kg] in HK. inversion HK; subst R. reflexivity. Qed.
+  Lemma All_str : forall s, All (MStr s).
+  Proof. intros s. start_case. intros R HK. cbn [Kg] in HK. inversion HK; subst R. reflexivity. Qed.
+  Lemma All_ph : forall s, All (MPlaceholder s).
+  Proof. intros s. start_case. intros R HK. cbn [Kg] in HK. inversion HK; subst R. reflexivity. Qed.
+  Lemma All_null : All MNull.
+  Proof. start_case. intros R HK. cbn [Kg] in HK. inversion HK; subst R. reflexivity. Qed.
+  Lemma All_bool : forall b, All (MBool b).
+  Proof. intros b. start_case. intros R HK. cbn [Kg] in HK. inversion HK; subst R. cbn [rg body app]. apply prim_bool. Qed.
+
+  Lemma All_bin : forall op e1 e2, All e1 -> All e2 -> All (MBin op e1 e2).
+  Proof.
+    intros op e1 e2 IHe1 IHe2. start_case.
+    apply andb_prop in Href; destruct Href as [Hr1 Hr2].
+    destruct op; cbn [glevel level_of gl pre body bin_ctx fst snd bin_tok ast_of bin_str lit] in *.
+    + bin_loop IHe1 IHe2 e1 e2 0.
+    + bin_loop IHe1 IHe2 e1 e2 1.
+    + (* comparison *)
+      intros R HK. rewrite Kg_stop in HK by exact Hst. inversion HK; subst R. clear HK.
+      rewrite <- app_assoc. cbn [app]. rewrite rg_step by lia.
+      rewrite (use_child_direct e1 IHe1 4); [|assumption|side|side|destruct c; reflexivity|destruct c; reflexivity].
+      cbn [bind fst snd Kg]. rewrite K2_cmpop by apply is_quantifier_head.
+      change (r3 f d) with (rg (gl 4) f d).
+      rewrite (use_child_direct e2 IHe2 4); [|assumption|side|side|stops_from Hst|stops_from Hst].
+      reflexivity.
+    + bin_loop IHe1 IHe2 e1 e2 4.
+    + bin_loop IHe1 IHe2 e1 e2 5.
+    + bin_loop IHe1 IHe2 e1 e2 5.
+    + bin_loop IHe1 IHe2 e1 e2 6.
+    + bin_loop IHe1 IHe2 e1 e2 6.
+    + bin_loop IHe1 IHe2 e1 e2 6.
+  Qed.
+
+  Lemma All_not : forall e, All e -> All (MNot e).
+  Proof.
+    intros e IHe. start_case.
+    apply (lift_down 5 2); [lia|reflexivity| |exact Hst].
+    intros R HK. cbn [Kg] in HK. inversion HK; subst R. clear HK. cbn [rg plus body app].
+    destruct f as [|f]; [side|].
+    apply prim_not; [apply render_head_app|side|].
+    apply (use_child_direct e IHe 2); [assumption|side|side|stops_from Hst|stops_from Hst].
+  Qed.
+
+  Lemma All_isnull : forall e neg, All e -> All (MIsNull e neg).
+  Proof.
+    intros e neg IHe. start_case.
+    intros R HK. rewrite Kg_stop in HK by exact Hst. inversion HK; subst R. clear HK.
+    cbn [body]. rewrite <- app_assoc. cbn [app]. rewrite <- app_assoc. cbn [app].
+    rewrite rg_step by lia.
+    rewrite (use_child_direct e IHe 4); [|assumption|side|side|reflexivity|reflexivity].
+    cbn [bind fst snd Kg]. apply K2_is.
+  Qed.
+
+  Lemma All_in : forall e neg items, All e -> Forall All items -> All (MIn e neg items).
+  Proof.
+    intros e neg items IHe HAll. start_case.
+    apply andb_prop in Href; destruct Href as [Href Hr3]. apply andb_prop in Href; destruct Href as [Hr1 Hr2].
+    assert (Hne : items <> []) by (destruct items; [discriminate|discriminate]).
+    intros R HK. rewrite Kg_stop in HK by exact Hst. inversion HK; subst R. clear HK.
+    cbn [body]. repeat (rewrite <- app_assoc; cbn [app]).
+    rewrite rg_step by lia.
+    rewrite (use_child_direct e IHe 4); [|assumption|side; destruct neg; side|side|destruct neg; reflexivity|destruct neg; reflexivity].
+    cbn [bind fst snd Kg]. rewrite K2_in.
+    assert (Hhd : exists t tl, sep_by [tComma] (render_list render 0 rr 1 items) ++ tRP :: rest = t :: tl /\ starts t = true).
+    { destruct items as [|x tl]; [contradiction|]. cbn [render_list].
+      destruct (render_head x 0 (sub rr 1)) as (tk & tl0 & E & S1).
+      destruct tl as [|y tl']; cbn [render_list sep_by]; rewrite E; eexists _, _; (split; [reflexivity|exact S1]). }
+    destruct Hhd as (tk & tl0 & Ehd & Shd).
+    rewrite Ehd. cbn [cur]. rewrite (starts_not tk TySelect Shd eq_refl), (starts_not tk TyWith Shd eq_refl). cbn [orb].
+    rewrite <- Ehd.
+    rewrite in_list_ok; [|exact HAll|exact Hr3|exact Hne| | |lia].
+    + cbn [bind advance app]. reflexivity.
+    + side.
+    + side.
+  Qed.
+
+  Lemma All_between : forall e1 neg e2 e3, All e1 -> All e2 -> All e3 -> All (MBetween e1 neg e2 e3).
+  Proof.
+    intros e1 neg e2 e3 IHe1 IHe2 IHe3. start_case.
+    apply andb_prop in Href; destruct Href as [Href Hr3]. apply andb_prop in Href; destruct Href as [Hr1 Hr2].
+    intros R HK. rewrite Kg_stop in HK by exact Hst. inversion HK; subst R. clear HK.
+    cbn [body]. repeat (rewrite <- app_assoc; cbn [app]).
+    rewrite rg_step by lia.
+    rewrite (use_child_direct e1 IHe1 4); [|assumption|side; destruct neg; side|side|destruct neg; reflexivity|destruct neg; reflexivity].
+    cbn [bind fst snd Kg]. rewrite K2_between.
+    change (r3 f d) with (rg (gl 4) f d).
+    rewrite (use_child_direct e2 IHe2 4); [|assumption|side; destruct neg; side|side|reflexivity|reflexivity].
+    cbn [rewrap bind cur advance]. cbn.
+    rewrite (use_child_direct e3 IHe3 4); [|assumption|side; destruct neg; side|side|stops_from Hst|stops_from Hst].
+    reflexivity.
+  Qed.
+
+  Lemma All_like : forall e1 neg ci e2, All e1 -> All e2 -> All (MLike e1 neg ci e2).
+  Proof.
+    intros e1 neg ci e2 IHe1 IHe2. start_case.
+    apply andb_prop in Href; destruct Href as [Hr1 Hr2].
+    intros R HK. rewrite Kg_stop in HK by exact Hst. inversion HK; subst R. clear HK.
+    cbn [body]. repeat (rewrite <- app_assoc; cbn [app]).
+    rewrite rg_step by lia.
+    rewrite (use_child_direct e1 IHe1 4); [|assumption|side; destruct neg; side|side|destruct neg, ci; reflexivity|destruct neg, ci; reflexivity].
+    cbn [bind fst snd Kg]. rewrite K2_like.
+    change (r3 f d) with (rg (gl 4) f d).
+    rewrite (use_child_direct e2 IHe2 4); [|assumption|side; destruct neg; side|side|stops_from Hst|stops_from Hst].
+    reflexivity.
+  Qed.
+
+  (* e :: type, given that parseDataType reads the type name back *)
+  Lemma All_castop_gen : forall e t, All e ->
+      (forall rest, cont8 (cur rest) = false -> parse_data_type (type_toks t ++ rest) = Val (type_str t, rest)) ->
+      All (MCastOp e t).
+  Proof.
+    intros e t IHe Hpdt. start_case.
+    apply andb_prop in Href; destruct Href as [Hr1 Hr2].
+    intros R HK. cbn [body]. rewrite <- app_assoc. cbn [app].
+    apply (use_child e IHe 7); [assumption|side|side|reflexivity|].
+    cbn [gl Kg ast_of] in *. unfold K6, json_tail, cast_loop in *.
+    destruct (chain (fun t0 => isT t0 TyDoubleColon) cast_step (S (length rest)) (GCast (ast_of e) (type_str t)) rest)
+      as [[l ts]| | | |] eqn:E; cbn [bind] in HK; try discriminate.
+    cbn [chain cur]. cbn [isT ty tty_eqb tty_code N.eqb Pos.eqb]. unfold cast_step at 1. cbn [advance].
+    rewrite Hpdt; [|split_stops Hst; assumption]. cbn [bind].
+    erewrite chain_mono; [|exact E|side].
+    cbn [bind]. exact HK.
+  Qed.
+
+  Lemma All_castop_simple : forall e t, All e -> targs t = [] -> All (MCastOp e t).
+  Proof. intros e t IHe Ha. apply All_castop_gen; [exact IHe|]. intros rest Hc. apply pdt_simple; assumption. Qed.
+
+  Lemma All_cast_simple : forall e t, All e -> targs t = [] -> All (MCast e t).
+  Proof.
+    intros e t IHe Ha. start_case.
+    apply andb_prop in Href; destruct Href as [Hr1 Hr2].
+    intros R HK. cbn [Kg] in HK. inversion HK; subst R. clear HK. cbn [rg body ast_of].
+    cbn [app]. repeat (rewrite <- app_assoc; cbn [app]).
+    destruct f as [|f]; [side|].
+    apply prim_cast; [side|exact Ha|].
+    apply (use_child_direct e IHe 0); [assumption|side|side|reflexivity|reflexivity].
+  Qed.
+
   Theorem all_exprs : forall e, proved e = true -> All e.
   Proof.
-    induction e using mexpr_ind2; intros Hp; cbn [proved] in Hp; try discriminate;
-      apply All_intro; intros rr f d rest Href Hlen Hdep Hst; cbn [glevel level_of gl pre ref_expr] in *.
-    - (* identifier *) intros R HK. cbn [Kg] in HK. inversion HK; subst R. cbn [rg body app].
-      apply prim_ident. split_stops Hst. assumption.
-    - (* qualified identifier *) intros R HK. cbn [Kg] in HK. inversion HK; subst R. cbn [rg body app].
-      apply prim_qident. split_stops Hst. assumption.
-    - intros R HK. cbn [Kg] in HK. inversion HK; subst R. reflexivity.
-    - intros R HK. cbn [Kg] in HK. inversion HK; subst R. reflexivity.
-    - intros R HK. cbn [Kg] in HK. inversion HK; subst R. reflexivity.
-    - intros R HK. cbn [Kg] in HK. inversion HK; subst R. reflexivity.
-    - intros R HK. cbn [Kg] in HK. inversion HK; subst R. cbn [rg body app]. apply prim_bool.
-    - (* binary operators *)
-      apply andb_prop in Hp; destruct Hp as [Hp1 Hp2]. apply andb_prop in Href; destruct Href as [Hr1 Hr2].
-      specialize (IHe1 Hp1). specialize (IHe2 Hp2).
-      destruct op; cbn [glevel level_of gl pre body bin_ctx fst snd bin_tok ast_of bin_str lit] in *.
-      + bin_loop IHe1 IHe2 e1 e2 0.
-      + bin_loop IHe1 IHe2 e1 e2 1.
-      + (* comparison *)
-        intros R HK. rewrite Kg_stop in HK by exact Hst. inversion HK; subst R. clear HK.
-        rewrite <- app_assoc. cbn [app]. rewrite rg_step by lia.
-        rewrite (use_child_direct e1 IHe1 4); [|assumption|side|side|destruct c; reflexivity|destruct c; reflexivity].
-        cbn [bind fst snd Kg]. rewrite K2_cmpop by apply is_quantifier_head.
-        change (r3 f d) with (rg (gl 4) f d).
-        rewrite (use_child_direct e2 IHe2 4); [|assumption|side|side|stops_from Hst|stops_from Hst].
-        reflexivity.
-      + bin_loop IHe1 IHe2 e1 e2 4.
-      + bin_loop IHe1 IHe2 e1 e2 5.
-      + bin_loop IHe1 IHe2 e1 e2 5.
-      + bin_loop IHe1 IHe2 e1 e2 6.
-      + bin_loop IHe1 IHe2 e1 e2 6.
-      + bin_loop IHe1 IHe2 e1 e2 6.
-    - (* NOT *)
-      specialize (IHe Hp).
-      apply (lift_down 5 2); [lia| |exact Hst].
-      intros R HK. cbn [Kg] in HK. inversion HK; subst R. clear HK. cbn [rg plus body app].
-      destruct f as [|f]; [side|].
-      apply prim_not; [apply render_head_app|side|].
-      apply (use_child_direct e IHe 2); [assumption|side|side|stops_from Hst|stops_from Hst].
-    - (* IS [NOT] NULL *)
-      specialize (IHe Hp).
-      intros R HK. rewrite Kg_stop in HK by exact Hst. inversion HK; subst R. clear HK.
-      cbn [body]. rewrite <- app_assoc. cbn [app]. rewrite <- app_assoc. cbn [app].
-      rewrite rg_step by lia.
-      rewrite (use_child_direct e IHe 4); [|assumption|side|side|reflexivity|reflexivity].
-      cbn [bind fst snd Kg]. apply K2_is.
-    - (* [NOT] IN (list) *)
-      apply andb_prop in Hp; destruct Hp as [Hp1 Hp2].
-      apply andb_prop in Href; destruct Href as [Href Hr3]. apply andb_prop in Href; destruct Href as [Hr1 Hr2].
-      specialize (IHe Hp1).
-      assert (HAll : Forall All items).
-      { rewrite Forall_forall in *. intros x Hx. apply H; [exact Hx|]. rewrite forallb_forall in Hp2. apply Hp2. exact Hx. }
-      assert (Hne : items <> []) by (destruct items; [discriminate|discriminate]).
-      intros R HK. rewrite Kg_stop in HK by exact Hst. inversion HK; subst R. clear HK.
-      cbn [body]. repeat (rewrite <- app_assoc; cbn [app]).
-      rewrite rg_step by lia.
-      rewrite (use_child_direct e IHe 4); [|assumption|side; destruct neg; side|side|destruct neg; reflexivity|destruct neg; reflexivity].
-      cbn [bind fst snd Kg]. rewrite K2_in.
-      assert (Hhd : exists t tl, sep_by [tComma] (render_list render 0 rr 1 items) ++ tRP :: rest = t :: tl /\ starts t = true).
-      { destruct items as [|x tl]; [contradiction|]. cbn [render_list].
-        destruct (render_head x 0 (sub rr 1)) as (tk & tl0 & E & S1).
-        destruct tl as [|y tl']; cbn [render_list sep_by]; rewrite E; eexists _, _; (split; [reflexivity|exact S1]). }
-      destruct Hhd as (tk & tl0 & Ehd & Shd).
-      rewrite Ehd. cbn [cur]. rewrite (starts_not tk TySelect Shd eq_refl), (starts_not tk TyWith Shd eq_refl). cbn [orb].
-      rewrite <- Ehd.
-      rewrite in_list_ok; [|exact HAll|exact Hr3|exact Hne| | |lia].
-      + cbn [bind advance app]. reflexivity.
-      + side.
-      + side.
-    - (* [NOT] BETWEEN *)
-      apply andb_prop in Hp; destruct Hp as [Hp Hp3]. apply andb_prop in Hp; destruct Hp as [Hp1 Hp2].
-      apply andb_prop in Href; destruct Href as [Href Hr3]. apply andb_prop in Href; destruct Href as [Hr1 Hr2].
-      specialize (IHe1 Hp1). specialize (IHe2 Hp2). specialize (IHe3 Hp3).
-      intros R HK. rewrite Kg_stop in HK by exact Hst. inversion HK; subst R. clear HK.
-      cbn [body]. repeat (rewrite <- app_assoc; cbn [app]).
-      rewrite rg_step by lia.
-      rewrite (use_child_direct e1 IHe1 4); [|assumption|side; destruct neg; side|side|destruct neg; reflexivity|destruct neg; reflexivity].
-      cbn [bind fst snd Kg]. rewrite K2_between.
-      change (r3 f d) with (rg (gl 4) f d).
-      rewrite (use_child_direct e2 IHe2 4); [|assumption|side; destruct neg; side|side|reflexivity|reflexivity].
-      cbn [rewrap bind cur advance]. cbn.
-      rewrite (use_child_direct e3 IHe3 4); [|assumption|side; destruct neg; side|side|stops_from Hst|stops_from Hst].
-      reflexivity.
-    - (* [NOT] LIKE / ILIKE *)
-      apply andb_prop in Hp; destruct Hp as [Hp1 Hp2]. apply andb_prop in Href; destruct Href as [Hr1 Hr2].
-      specialize (IHe1 Hp1). specialize (IHe2 Hp2).
-      intros R HK. rewrite Kg_stop in HK by exact Hst. inversion HK; subst R. clear HK.
-      cbn [body]. repeat (rewrite <- app_assoc; cbn [app]).
-      rewrite rg_step by lia.
-      rewrite (use_child_direct e1 IHe1 4); [|assumption|side; destruct neg; side|side|destruct neg, ci; reflexivity|destruct neg, ci; reflexivity].
-      cbn [bind fst snd Kg]. rewrite K2_like.
-      change (r3 f d) with (rg (gl 4) f d).
-      rewrite (use_child_direct e2 IHe2 4); [|assumption|side; destruct neg; side|side|stops_from Hst|stops_from Hst].
-      reflexivity.
-    - (* e :: type *)
-      apply andb_prop in Hp; destruct Hp as [Hp1 Hp2]. apply andb_prop in Href; destruct Href as [Hr1 Hr2].
-      specialize (IHe Hp1).
-      assert (Ha : targs t = []) by (destruct (targs t); [reflexivity|discriminate]).
-      intros R HK. cbn [body]. rewrite <- app_assoc. cbn [app].
-      apply (use_child e IHe 7); [assumption|side|side|reflexivity|].
-      cbn [gl Kg ast_of] in *. unfold K6, json_tail, cast_loop in *.
-      destruct (chain (fun t0 => isT t0 TyDoubleColon) cast_step (S (length rest)) (GCast (ast_of e) (type_str t)) rest)
-        as [[l ts]| | | |] eqn:E; cbn [bind] in HK; try discriminate.
-      cbn [chain cur]. cbn [isT ty tty_eqb tty_code N.eqb Pos.eqb]. unfold cast_step at 1. cbn [advance].
-      rewrite pdt_simple; [|exact Ha|split_stops Hst; assumption]. cbn [bind].
-      erewrite chain_mono; [|exact E|side].
-      cbn [bind]. exact HK.
-    - (* CAST(e AS type) *)
-      apply andb_prop in Hp; destruct Hp as [Hp1 Hp2]. apply andb_prop in Href; destruct Href as [Hr1 Hr2].
-      specialize (IHe Hp1).
-      assert (Ha : targs t = []) by (destruct (targs t); [reflexivity|discriminate]).
-      intros R HK. cbn [Kg] in HK. inversion HK; subst R. clear HK. cbn [rg body ast_of].
-      cbn [app]. repeat (rewrite <- app_assoc; cbn [app]).
-      destruct f as [|f]; [side|].
-      apply prim_cast; [side|exact Ha|].
-      apply (use_child_direct e IHe 0); [assumption|side|side|reflexivity|reflexivity].
+    induction e using mexpr_ind2; intros Hp; cbn [proved] in Hp; try discriminate.
+    - apply All_ident.
+    - apply All_qident.
+    - apply All_num.
+    - apply All_str.
+    - apply All_ph.
+    - apply All_null.
+    - apply All_bool.
+    - apply andb_prop in Hp; destruct Hp as [Hp1 Hp2]. apply All_bin; auto.
+    - apply All_not; auto.
+    - apply All_isnull; auto.
+    - apply andb_prop in Hp; destruct Hp as [Hp1 Hp2]. apply All_in; [auto|].
+      rewrite Forall_forall in *. intros x Hx. apply H; [exact Hx|]. rewrite forallb_forall in Hp2. apply Hp2. exact Hx.
+    - apply andb_prop in Hp; destruct Hp as [Hp Hp3]. apply andb_prop in Hp; destruct Hp as [Hp1 Hp2]. apply All_between; auto.
+    - apply andb_prop in Hp; destruct Hp as [Hp1 Hp2]. apply All_like; auto.
+    - apply andb_prop in Hp; destruct Hp as [Hp1 Hp2]. apply All_castop_simple; [auto|].
+      destruct (targs t); [reflexivity|discriminate].
+    - apply andb_prop in Hp; destruct Hp as [Hp1 Hp2]. apply All_cast_simple; [auto|].
+      destruct (targs t); [reflexivity|discriminate].
   Qed.
 End Main.
 
